@@ -3,7 +3,7 @@
    fields: universally quantified; what the round trip needs of them is stated as explicit premises. *)
 From Slsk Require Import Base.Tac.
 From Coq Require Import Permutation.
-From SlskGen Require Import TransGen.
+From SlskGen Require Import TransGen TransferGen.
 From Slsk Require Import C03.Spec C03.Model C17.Model C17.Proofs.
 
 (* write then read: the database holds exactly the pickles of the listed transfers, each exactly once and
@@ -26,6 +26,19 @@ Theorem C17_roundtrip_read : forall K K_eqb H enc, (forall a b : K, K_eqb a b = 
   (forall t, In t ts -> has_class (m_state t) = true) ->
   Permutation (read K (write K K_eqb H enc d ts)) (map (fun t => Some (norm t)) ts).
 Proof. exact roundtrip_read_thm. Qed.
+
+(* over histories: however often and with whatever lists / field values the cache was written before, after the last
+   write it holds the CURRENT pickles of the listed transfers (an implementation that skips "unchanged" transfers or
+   keeps old values does not satisfy this model: the correspondence compares field values after mutate/write) *)
+Theorem C17_history_current : forall K K_eqb H enc, (forall a b : K, K_eqb a b = true <-> a = b) ->
+  (forall a b : ident, enc a = enc b -> a = b) ->
+  forall d0 hist ts, NoDup (map fst d0) -> NoDup (map ident_of ts) -> hash_injective_on K H enc ts ->
+  Permutation (map snd (write K K_eqb H enc (fold_left (fun d l => write K K_eqb H enc d l) hist d0) ts)) (map getstate ts).
+Proof. exact history_thm. Qed.
+
+(* the pickled attributes, regenerated from Transfer.__init__ and _UNPICKABLE_FIELDS, are the fields of the model record *)
+Theorem C17_persisted_fields : persisted_fields_b = true.
+Proof. exact persisted_fields_b_true. Qed.
 
 Theorem C17_pickle_roundtrip : forall m, has_class (m_state m) = true -> setstate (getstate m) = Some (norm m).
 Proof. exact setstate_getstate. Qed.
